@@ -6,18 +6,39 @@ From XV Require Import model.TokenFS proofs.TokenFS_lemmas.
 Import ListNotations.
 Open Scope Z_scope.
 
-(* whatever way the job ended (aborted start = Holding, success or failure = Ended), the
-   release is possible, and afterwards the holding is gone from the directory and from the
-   memory of the releasing process, whose `available` is exactly total - holdings          *)
+(* [sanity: enabling conditions read back] with the repaired _update the token stays usable
+   whatever is left in the directory - also the empty file of a scheduler killed between
+   open() and write(): a release (after an aborted start = Holding, success or failure = Ended)
+   and the start of a new scheduler only need token.lock                                   *)
 Theorem C09_release_enabled : forall V C s p j,
-  reachable V C s -> p_alive (s_procs s p) = true -> c_owner C j = p -> j_orph (s_jobs s j) = false ->
+  v_empty V = true -> p_alive (s_procs s p) = true -> c_owner C j = p -> j_orph (s_jobs s j) = false ->
   j_ph (s_jobs s j) = Holding \/ j_ph (s_jobs s j) = Ended -> s_lock s = None ->
   exists s' r, step V C s (Release p j) = Some (s', r).
 Proof. exact release_enabled. Qed.
 Print Assumptions C09_release_enabled.
 
+Theorem C09_start_enabled : forall V C s p,
+  v_empty V = true -> p_alive (s_procs s p) = false -> s_lock s = None ->
+  exists s', step V C s (Start p) = Some (s', ROk) /\ p_alive (s_procs s' p) = true.
+Proof. exact start_enabled. Qed.
+Print Assumptions C09_start_enabled.
+
+(* the half-created file is reclaimed: a starting scheduler leaves no unwritten file; after an
+   acquire or release the only unwritten files left are the one being created now and those
+   the process still had in cache under the same name (dropped with their pending event)    *)
+Theorem C09_start_reclaims : forall V C s p s' r k,
+  v_empty V = true -> step V C s (Start p) = Some (s', r) -> s_disk s' k <> Empty.
+Proof. exact start_reclaims. Qed.
+Print Assumptions C09_start_reclaims.
+
+Theorem C09_recount_reclaims : forall V C s l p j s' r k,
+  v_empty V = true -> l = Acquire p j \/ l = Release p j -> step V C s l = Some (s', r) ->
+  s_disk s' k = Empty -> s_lock s' = Some k \/ p_cache (s_procs s p) k <> None.
+Proof. exact recount_reclaims. Qed.
+Print Assumptions C09_recount_reclaims.
+
 Theorem C09_release_on_every_exit : forall V C s p j s' r,
-  reachable V C s -> step V C s (Release p j) = Some (s', r) ->
+  v_fire V = true -> reachable V C s -> step V C s (Release p j) = Some (s', r) ->
   s_disk s' j = Absent /\ p_cache (s_procs s' p) j = None /\
   p_avail (s_procs s' p) = c_total C - held_sum C s' /\
   ((j_ph (s_jobs s j) = Holding /\ j_ph (s_jobs s' j) = Idle) \/
@@ -64,17 +85,31 @@ Print Assumptions C09_crash_reclaim.
 (* (Ended = the job process is gone: after an orderly end, pid file removed, or after a kill,
    stale pid file left behind - j_pid is not constrained)                                 *)
 Theorem C09_crash_reclaim_fires : forall V C s q k,
-  reachable V C s ->
+  v_fire V = true -> reachable V C s ->
   p_alive (s_procs s q) = true -> In k (p_wat (s_procs s q)) -> j_ph (s_jobs s k) = Ended ->
   exists s', step V C s (Fire q k) = Some (s', ROk) /\ s_disk s' k = Absent.
 Proof. exact crash_reclaim_fires. Qed.
 Print Assumptions C09_crash_reclaim_fires.
 
-Theorem C09_crash_reclaim_restart : forall V C s p s' r k,
-  reachable V C s -> step V C s (Start p) = Some (s', r) -> s_disk s k <> Absent ->
+Theorem C09_crash_reclaim_restart : forall V C s p s' k c,
+  v_fire V = true -> reachable V C s -> step V C s (Start p) = Some (s', ROk) -> s_disk s k = Written c ->
   In k (p_wat (s_procs s' p)) /\ p_alive (s_procs s' p) = true.
 Proof. exact crash_reclaim_restart. Qed.
 Print Assumptions C09_crash_reclaim_restart.
+
+(* possibility: in a quiescent state with an empty directory every job of a live scheduler whose
+   request fits can be launched at once (acquire succeeds, file written, process started).
+   That a quiescent state is reached is the FAIRNESS ASSUMPTION (not proved): every pending
+   event is eventually handled, every watcher thread eventually runs, every job process ends,
+   every scheduler eventually releases what it took.                                        *)
+Theorem C09_launch_possible : forall C s p j,
+  (forall j, 1 <= c_cnt C j) -> reachable VF C s -> quiescent s -> (forall k, s_disk s k = Absent) ->
+  p_alive (s_procs s p) = true -> (j < c_n C)%nat -> c_owner C j = p ->
+  j_ph (s_jobs s j) = Idle -> j_orph (s_jobs s j) = false -> c_cnt C j <= c_total C ->
+  exists s', run VF C s [Acquire p j; WriteF j; Launch j] = Some s' /\ j_ph (s_jobs s' j) = Running /\
+             s_disk s' j = Written (c_cnt C j).
+Proof. exact launch_possible. Qed.
+Print Assumptions C09_launch_possible.
 
 (* "eventually launched" as absence of stuck states: in a quiescent state no job of a live
    scheduler whose observer is alive is WAITING on the token with a request that fits      *)
@@ -84,19 +119,20 @@ Theorem C09_eventual_launch : forall C s p j,
 Proof. exact eventual_launch. Qed.
 Print Assumptions C09_eventual_launch.
 
-(* the pinned commit: three ways to violate the property (finite witnesses, vm_compute) *)
+(* defects of the pinned commit, each on the repaired code with that one repair taken out
+   (the variants V_no_parse .. V_no_fire): finite witnesses, vm_compute *)
 Theorem C09_observer_death_refuted : exists C tr s p j,
-  run VL C init tr = Some s /\ quiescent s /\ waiting_fits C s p j /\ p_obs (s_procs s p) = false.
+  run V_no_parse C init tr = Some s /\ quiescent s /\ waiting_fits C s p j /\ p_obs (s_procs s p) = false.
 Proof. exact observer_death_refuted. Qed.
 Print Assumptions C09_observer_death_refuted.
 
 Theorem C09_release_unnotified_refuted : exists C tr s p j,
-  run VL C init tr = Some s /\ quiescent s /\ waiting_fits C s p j /\ p_obs (s_procs s p) = true.
+  run V_no_notify C init tr = Some s /\ quiescent s /\ waiting_fits C s p j /\ p_obs (s_procs s p) = true.
 Proof. exact release_unnotified_refuted. Qed.
 Print Assumptions C09_release_unnotified_refuted.
 
 Theorem C09_idle_overfull_refuted : exists C tr s p,
-  run VL C init tr = Some s /\ quiescent s /\ p_alive (s_procs s p) = true /\ p_obs (s_procs s p) = true /\
+  run V_no_count C init tr = Some s /\ quiescent s /\ p_alive (s_procs s p) = true /\ p_obs (s_procs s p) = true /\
   c_total C < p_avail (s_procs s p).
 Proof. exact idle_overfull_refuted. Qed.
 Print Assumptions C09_idle_overfull_refuted.
@@ -105,6 +141,17 @@ Print Assumptions C09_idle_overfull_refuted.
    thread started by __init__'s _update deletes a stale token file before the directory watch
    is installed; StartRace is proved harmless for the repaired start-up by C09_eventual_launch *)
 Theorem C09_restart_race_refuted : exists C tr s p j,
-  run (mkV true true true false) C init tr = Some s /\ quiescent s /\ waiting_fits C s p j /\ p_obs (s_procs s p) = true.
+  run V_no_watch C init tr = Some s /\ quiescent s /\ waiting_fits C s p j /\ p_obs (s_procs s p) = true.
 Proof. exact restart_race_refuted. Qed.
 Print Assumptions C09_restart_race_refuted.
+
+(* a scheduler killed between open() and write() of its token file (code before fixes/C09-4):
+   the empty file makes _update raise for ever: the READY job 1 of the live scheduler 1, whose
+   request fits the unused token, cannot acquire, and no new scheduler can be started        *)
+Theorem C09_kill_in_create_refuted : exists C tr s,
+  run V_no_empty C init tr = Some s /\ quiescent s /\
+  p_alive (s_procs s 1) = true /\ j_ph (s_jobs s 1) = Idle /\ j_ok (s_jobs s 1) = true /\ c_owner C 1%nat = 1%nat /\
+  1 <= c_cnt C 1%nat <= c_total C /\ held_sum C s = c_cnt C 0%nat /\ j_ph (s_jobs s 0) = Ended /\
+  step V_no_empty C s (Acquire 1 1) = None /\ step V_no_empty C s (Start 0) = Some (s, RRaised).
+Proof. exact kill_in_create_refuted. Qed.
+Print Assumptions C09_kill_in_create_refuted.
